@@ -26,8 +26,8 @@ na = {
  "C04": "Containment parity and tiling are pure functions of (shape, point); the one state-dependent clause (same answer before/after the index exists, and under concurrent first use) is exercised as history/schedule dependence by C13/C14, which is all a simulator can say about it.",
  "C05": "The coverer allocates its working state per call; the result is a pure function of (region, options).",
  "C06": "Index contents are a deterministic function of the shape set and queries are pure given the index; how the index came to be (batches, resets) is C13, who built it is C14.",
- "C07": "Pure function of two loops/polygons; the lazily built indexes underneath are covered as state by C13/C14.",
- "C08": "Pure function of (index, target, options); query-object reuse and option leakage are C13, concurrent use is C14.",
+ "C07": "Pure function of two loops/polygons; the lazily built indexes underneath are covered as state by C13/C14. (No check here decides it; one input-universal defect met along the way, an inverted test in the loop relation code, was repaired in /repo: DESIGN.md 8.1, R6.)",
+ "C08": "Pure function of (index, target, options); query-object reuse and option leakage are C13, concurrent use is C14. (No check here decides it. Five input-universal defects met along the way - reported as side remarks by seeding sub-agents and confirmed with a throw-away differential test - were repaired in /repo all the same: DESIGN.md 8.1, R1-R5.)",
  "C10": "Pure numeric function of region geometry.",
  "C11": "Pure function of cell-id multisets; CellIndex is built once then read through caller-owned iterators.",
  "C12": "Pure numeric function of (cell, target).",
